@@ -20,6 +20,34 @@
 //! destination). Any other statement in these loops is an extraction failure:
 //! the Lean model would not know what it does.
 //!
+//! The same target also reads the decisions that surround the loops, so that the Lean model has
+//! no hand-written copy of them:
+//!
+//! * `call_drop_of` / `call_clone_function`, statement by statement, as `RotoV.Glue.CStmt`
+//!   (an `if` becomes `ifc <condition> <number of statements of its body>` followed by the body):
+//! ```text
+//! let size = self.layout_of(ty).unwrap().size() as u32;              letSize
+//! if !self.needs_drop(ty) { … } / if !self.needs_clone(ty) { … }     ifc .notNeeds n
+//! if size == 0 { … } / if size > 0 { … }                             ifc .sizeZero n / ifc .sizePos n
+//! if let Some(f) = self.get_runtime_drop(ty) { … }   (or _clone)     ifc .hasRuntime n
+//! return;                                                            ret
+//! self.emit_memcpy(to.into(), from.into(), size);                    memcpy
+//! self.emit(Instruction::Drop { var: var.clone(), drop: Some(drop) });   runtime
+//! self.emit_clone(to.into(), from.into(), clone_fn);                 runtime
+//! self.emit(Instruction::Call { …, func: format!("::generated::drop_{type_id}").into(), args: vec![var], return_ptr: None });   callGen
+//! self.emit(Instruction::Call { …, func: format!("::generated::clone_{type_id}").into(), args: vec![from.clone().into()], return_ptr: Some(to) });   callGen
+//! self.ctx.drops_to_generate.push_back(ty); (or clones_)             enqueue
+//! let type_id = ty.type_id();                                        (no effect, skipped)
+//! ```
+//! * the arms of `needs_drop` / `needs_clone` (`match ty { … }`) as `(KPat, NeedArm)` pairs in
+//!   source order: `false` → `.no`, `true` → `.yes`, `fields.iter().any(|&(_, t)| self.needs_X(t))`
+//!   → `.anyField .X`, `variants.iter().flat_map(|v| &v.1).any(|&t| self.needs_X(t))` →
+//!   `.anyVariantField .X`, the `movability()` / `matches!(m, Movability::CloneDrop(..))` block →
+//!   `.cloneDrop`;
+//! * the type kinds for which `get_runtime_drop` / `get_runtime_clone` look up a registered type
+//!   (`Some(…)` arms of their `match ty`) and which function of the `CloneDrop` pair they return.
+//! Anything else in these functions is an extraction failure.
+//!
 //! `listown` → `Generated/ListOwn.lean`: every function of `impl ErasedList`
 //! (`src/value/list.rs`) that receives an element by raw pointer (`NonNull<T>`), as a list of
 //! `RotoV.ListOwn.OStmt` in source order, and the function each script-visible list method
@@ -187,6 +215,170 @@ fn field_loop(file: &syn::File, fname: &str, is_enum: bool) -> Result<(Vec<Strin
     Ok((pre, steps))
 }
 
+// -- call_drop_of / call_clone_function ---------------------------------------------------------
+
+fn is_hook(st: &syn::Stmt) -> bool {
+    norm(st).starts_with("#[cfg(feature=\"verif-hooks\")]")
+}
+
+/// the statements of a block of `call_drop_of` / `call_clone_function` → flat `CStmt`s
+fn call_stmts(fname: &str, stmts: &[syn::Stmt], out: &mut Vec<String>) -> Result<(), String> {
+    for st in stmts {
+        if is_hook(st) {
+            continue;
+        }
+        let s = norm(st);
+        // (statement, the glue function it may occur in ("" = both), CStmt ("" = no effect))
+        let table: [(&str, &str, &str); 10] = [
+            ("letsize=self.layout_of(ty).unwrap().size()asu32;", "", ".letSize"),
+            ("lettype_id=ty.type_id();", "", ""),
+            ("return;", "", ".ret"),
+            ("self.emit_memcpy(to.into(),from.into(),size);", "call_clone_function", ".memcpy"),
+            ("self.emit(Instruction::Drop{var:var.clone(),drop:Some(drop),});", "call_drop_of", ".runtime"),
+            ("self.emit_clone(to.into(),from.into(),clone_fn);", "call_clone_function", ".runtime"),
+            ("self.emit(Instruction::Call{to:None,ctx:None,func:format!(\"::generated::drop_{type_id}\").into(),args:vec![var],return_ptr:None,});", "call_drop_of", ".callGen"),
+            ("self.emit(Instruction::Call{to:None,ctx:None,func:format!(\"::generated::clone_{type_id}\").into(),args:vec![from.clone().into()],return_ptr:Some(to),});", "call_clone_function", ".callGen"),
+            ("self.ctx.drops_to_generate.push_back(ty);", "call_drop_of", ".enqueue"),
+            ("self.ctx.clones_to_generate.push_back(ty);", "call_clone_function", ".enqueue"),
+        ];
+        if let Some((_, only, x)) = table.iter().find(|t| t.0 == s) {
+            if !only.is_empty() && *only != fname {
+                return Err(format!("{fname}: statement of the other glue function: {}", st.to_token_stream()));
+            }
+            if !x.is_empty() {
+                out.push(x.to_string());
+            }
+            continue;
+        }
+        if let syn::Stmt::Expr(syn::Expr::If(e), _) = st {
+            if e.else_branch.is_some() {
+                return Err(format!("{fname}: `if … else` is outside the translated subset: {}", st.to_token_stream()));
+            }
+            let c = norm(&e.cond);
+            let want_pred = if fname == "call_drop_of" { "needs_drop" } else { "needs_clone" };
+            let want_rt = if fname == "call_drop_of" { "letSome(drop)=self.get_runtime_drop(ty)" } else { "letSome(clone_fn)=self.get_runtime_clone(ty)" };
+            let cond = if c == format!("!self.{want_pred}(ty)") {
+                ".notNeeds"
+            } else if c == "size==0" {
+                ".sizeZero"
+            } else if c == "size>0" || c == "size!=0" {
+                ".sizePos"
+            } else if c == want_rt {
+                ".hasRuntime"
+            } else {
+                return Err(format!("{fname}: condition outside the translated subset: {}", e.cond.to_token_stream()));
+            };
+            let mut body = vec![];
+            call_stmts(fname, &e.then_branch.stmts, &mut body)?;
+            out.push(format!(".ifc {cond} {}", body.len()));
+            out.extend(body);
+            continue;
+        }
+        return Err(format!("{fname}: statement outside the translated subset: {}", st.to_token_stream()));
+    }
+    Ok(())
+}
+
+fn call_fn(file: &syn::File, fname: &str, params: &str) -> Result<Vec<String>, String> {
+    let f = find::func(file, fname, None)?;
+    let sig = norm(&f.sig.inputs);
+    if sig != params {
+        return Err(format!("{fname}: parameters are `{sig}`, expected `{params}`"));
+    }
+    let mut out = vec![];
+    call_stmts(fname, &f.block.stmts, &mut out)?;
+    Ok(out)
+}
+
+// -- needs_drop / needs_clone -------------------------------------------------------------------
+
+fn kpat(p: &syn::Pat) -> Result<&'static str, String> {
+    Ok(match norm(p).as_str() {
+        "Ty::Unit" => ".unit",
+        "Ty::Never" => ".never",
+        "Ty::Record(fields)" | "Ty::Record(_)" => ".record",
+        "Ty::Enum(variants)" | "Ty::Enum(_)" => ".enum",
+        "Ty::Primitive(Primitive::String)" => ".string",
+        "Ty::Primitive(_)" => ".primAny",
+        "Ty::List(_)" => ".list",
+        "Ty::Runtime(type_id)" | "Ty::Runtime(id)" | "Ty::Runtime(_)" => ".runtime",
+        "_" => ".wild",
+        o => return Err(format!("type pattern outside the translated subset: `{o}`")),
+    })
+}
+
+fn needs_arms(file: &syn::File, fname: &str) -> Result<Vec<String>, String> {
+    let f = find::func(file, fname, None)?;
+    let body = norm(&f.block);
+    if !body.starts_with("{letty=self.ctx.type_info.ty_pool.get(ty);matchty{") {
+        return Err(format!("{fname}: does not start with the type lookup followed by `match ty`"));
+    }
+    let ms = find::matches_on(&f.block, "ty");
+    if ms.len() != 1 || f.block.stmts.len() != 2 {
+        return Err(format!("{fname}: expected exactly `let ty = …; match ty {{ … }}`"));
+    }
+    let mut out = vec![];
+    for a in &ms[0].arms {
+        if a.guard.is_some() {
+            return Err(format!("{fname}: guarded arm"));
+        }
+        let b = norm(&a.body);
+        let arm = match b.as_str() {
+            "false" => ".no".to_string(),
+            "true" => ".yes".to_string(),
+            "{fields.iter().any(|&(_,t)|self.needs_clone(t))}" | "fields.iter().any(|&(_,t)|self.needs_clone(t))" => ".anyField .clone".into(),
+            "{fields.iter().any(|&(_,t)|self.needs_drop(t))}" | "fields.iter().any(|&(_,t)|self.needs_drop(t))" => ".anyField .drop".into(),
+            "variants.iter().flat_map(|v|&v.1).any(|&t|self.needs_clone(t))" => ".anyVariantField .clone".into(),
+            "variants.iter().flat_map(|v|&v.1).any(|&t|self.needs_drop(t))" => ".anyVariantField .drop".into(),
+            "{letm=self.ctx.runtime.get_runtime_type(*type_id).unwrap().movability();matches!(m,Movability::CloneDrop(..))}" => ".cloneDrop".into(),
+            o => return Err(format!("{fname}: arm body outside the translated subset: `{o}`")),
+        };
+        out.push(format!("({}, {arm})", kpat(&a.pat).map_err(|e| format!("{fname}: {e}"))?));
+    }
+    Ok(out)
+}
+
+/// `get_runtime_drop` / `get_runtime_clone`: the kinds with a `Some(…)` arm, and the field returned
+fn runtime_fn(file: &syn::File, fname: &str) -> Result<(Vec<String>, &'static str), String> {
+    let f = find::func(file, fname, None)?;
+    let body = norm(&f.block);
+    let ms = find::matches_on(&f.block, "ty");
+    if ms.len() != 1 {
+        return Err(format!("{fname}: expected one `match ty`"));
+    }
+    let mut kinds = vec![];
+    let mut rest_none = false;
+    for a in &ms[0].arms {
+        let k = kpat(&a.pat).map_err(|e| format!("{fname}: {e}"))?;
+        let b = norm(&a.body);
+        let b = b.strip_prefix('{').and_then(|x| x.strip_suffix('}')).unwrap_or(&b).to_string();
+        if b == "None" && k == ".wild" {
+            rest_none = true;
+        } else if b.starts_with("Some(") && !rest_none {
+            kinds.push(k.to_string());
+        } else {
+            return Err(format!("{fname}: arm outside the translated subset: `{b}`"));
+        }
+    }
+    if !rest_none {
+        return Err(format!("{fname}: no `_ => None` arm"));
+    }
+    let field = if fname == "get_runtime_drop" { "drop" } else { "clone" };
+    let other = if field == "drop" { "clone" } else { "drop" };
+    let tail = |fld: &str, var: &str| format!("letid=id?;letty=self.ctx.runtime.get_runtime_type(id).unwrap();ifletMovability::CloneDrop({var})=ty.movability(){{Some({var}.{fld})}}else{{None}}}}");
+    let which = if body.ends_with(&tail(field, "clone_drop")) {
+        field
+    } else if body.ends_with(&tail(other, "clone_drop")) {
+        other
+    } else {
+        return Err(format!("{fname}: what follows the `match ty` is outside the translated subset"));
+    };
+    if !body.starts_with("{letty=self.ctx.type_info.ty_pool.get(ty);letid=matchty{") {
+        return Err(format!("{fname}: does not start with the type lookup followed by `let id = match ty`"));
+    }
+    Ok((kinds, if which == "drop" { ".drop" } else { ".clone" }))
+}
+
 fn glueloops(repo: &Path) -> Result<String, String> {
     let drops = find::parse(repo, "src/lir/lower/drops.rs")?;
     let clones = find::parse(repo, "src/lir/lower/clones.rs")?;
@@ -203,7 +395,18 @@ fn glueloops(repo: &Path) -> Result<String, String> {
     out.push_str(&format!("/-- `generate_clone_body_record`: body of `for &(_, ty) in fields` -/\ndef cloneRecord : List Step := {}\n\n", list(&cr)));
     out.push_str(&format!("def cloneEnumPre : List Pre := {}\n\n", list(&cpre)));
     out.push_str(&format!("/-- `generate_clone_body_enum`: body of `for (ty, layout) in layouts` -/\ndef cloneEnum : List Step := {}\n\n", list(&ce)));
-    out.push_str("/-- the four loops as the current source has them -/\ndef prog : Prog :=\n  { dropRecord := dropRecord, dropEnumPre := dropEnumPre, dropEnum := dropEnum,\n    cloneRecord := cloneRecord, cloneEnumPre := cloneEnumPre, cloneEnum := cloneEnum }\n\nend RotoV.Gen.GlueLoops\n");
+    let dcall = call_fn(&drops, "call_drop_of", "&mutself,var:Operand,ty:TyRef")?;
+    let ccall = call_fn(&clones, "call_clone_function", "&mutself,from:Var,to:Var,ty:TyRef")?;
+    out.push_str(&format!("/-- `Lowerer::call_drop_of(var, ty)`, statement by statement -/\ndef dropCall : List CStmt := {}\n\n", list(&dcall)));
+    out.push_str(&format!("/-- `Lowerer::call_clone_function(from, to, ty)`, statement by statement -/\ndef cloneCall : List CStmt := {}\n\n", list(&ccall)));
+    out.push_str(&format!("/-- `Lowerer::needs_drop`: the arms of `match ty` -/\ndef needsDropArms : List (KPat × NeedArm) := {}\n\n", list(&needs_arms(&drops, "needs_drop")?)));
+    out.push_str(&format!("/-- `Lowerer::needs_clone`: the arms of `match ty` -/\ndef needsCloneArms : List (KPat × NeedArm) := {}\n\n", list(&needs_arms(&clones, "needs_clone")?)));
+    let (dk, df) = runtime_fn(&drops, "get_runtime_drop")?;
+    let (ck, cf) = runtime_fn(&clones, "get_runtime_clone")?;
+    out.push_str(&format!("/-- `get_runtime_drop`: the kinds looked up among the registered types, and the function of the `CloneDrop` pair it returns -/\ndef runtimeDropKinds : List KPat := {}\ndef runtimeDropField : Fn := {df}\n\n", list(&dk)));
+    out.push_str(&format!("/-- `get_runtime_clone` -/\ndef runtimeCloneKinds : List KPat := {}\ndef runtimeCloneField : Fn := {cf}\n\n", list(&ck)));
+    out.push_str("/-- `needs_drop` / `needs_clone` by name -/\ndef arms : Fn → List (KPat × NeedArm)\n  | .drop => needsDropArms\n  | .clone => needsCloneArms\n\n");
+    out.push_str("/-- the loops and the call decisions as the current source has them -/\ndef prog : Prog :=\n  { dropRecord := dropRecord, dropEnumPre := dropEnumPre, dropEnum := dropEnum,\n    cloneRecord := cloneRecord, cloneEnumPre := cloneEnumPre, cloneEnum := cloneEnum,\n    dropCall := dropCall, cloneCall := cloneCall }\n\nend RotoV.Gen.GlueLoops\n");
     Ok(out)
 }
 
